@@ -976,7 +976,6 @@ class Container:
         """
         return any(substance.is_liquid() for substance in self.contents)
 
-    @cache
     def get_substances(self):
         """
 
